@@ -130,10 +130,11 @@ func runC06(c *engine.Ctx) {
 	if tr == nil {
 		c.AnchorMissing(r1, "responseassembler.responseStream.Transaction")
 	} else {
-		okT := false
+		okT := len(engine.Returns(tr)) > 0
 		for _, r := range engine.Returns(tr) {
-			if call, ok := engine.ReturnValue(r, 0).(*ssa.Call); ok && !call.Call.IsInvoke() && call.Call.StaticCallee() == nil && len(tr.Params) >= 2 && engine.Strip(call.Call.Value) == ssa.Value(tr.Params[1]) {
-				okT = true
+			call, ok := engine.ReturnValue(r, 0).(*ssa.Call)
+			if !(ok && !call.Call.IsInvoke() && call.Call.StaticCallee() == nil && len(tr.Params) >= 2 && engine.Strip(call.Call.Value) == ssa.Value(tr.Params[1])) {
+				okT = false
 			}
 		}
 		c.Decide(r1, engine.FuncName(tr)+"|returns-closure-error", tr.Pos(), okT, "Transaction returns exactly what the transaction function returned", "Transaction no longer returns the transaction function's error: a pause or hook error is lost on the way to the traversal loop")
